@@ -1522,6 +1522,12 @@ func (ctx Ctx) sliceRangeStmt(s *ast.RangeStmt) coq.Expr {
 }
 
 func (ctx Ctx) rangeStmt(s *ast.RangeStmt) coq.Expr {
+	if s.Tok == token.ASSIGN {
+		// the loop would have to store into the existing variables; binding
+		// fresh names instead leaves them unchanged
+		ctx.unsupported(s, "range that assigns to existing variables (use :=)")
+		return nil
+	}
 	switch ctx.typeOf(s.X).Underlying().(type) {
 	case *types.Map:
 		return ctx.mapRangeStmt(s)
